@@ -315,8 +315,24 @@ impl Check for C09Check {
                 stats.probe(&format!("stageB_event:{}", kind_name(e)));
             }
             let scratch = Scratch::new("c09");
-            let p = write_file(&scratch.dir, "r.mid", &mf, false, None);
-            log.bytes(&mf.encode());
+            // the events are spread over 1-3 consecutive files of the run (contiguous initial /
+            // final timestamps), given on the command line in a seeded order
+            let n_files = 1 + (scn.seed % 3) as usize;
+            let per = mf.events.len().div_ceil(n_files).max(1);
+            let all_events = std::mem::take(&mut mf.events);
+            let mut paths = Vec::new();
+            for k in 0..n_files {
+                let mut part = mf.clone();
+                part.events = all_events.iter().skip(k * per).take(per).cloned().collect();
+                part.initial_timestamp = 100 + 2 * k as u32;
+                part.final_timestamp = part.initial_timestamp + 1 + (k as u32 % 2);
+                paths.push(write_file(&scratch.dir, &format!("r{k}.mid"), &part, false, None));
+                log.bytes(&part.encode());
+            }
+            Rng::new(scn.seed ^ 0xA26).shuffle(&mut paths);
+            if n_files > 1 {
+                stats.probe("stageB_or_C_run_of_several_files");
+            }
             let reps = if *real_rayon { (*repeat).max(1) } else { 1 };
             let mut res = None;
             let mut bad = false;
@@ -328,7 +344,7 @@ impl Check for C09Check {
                 let r = run_binary(
                     "alpha-g-vertices",
                     &scratch.dir,
-                    &[p.clone()],
+                    &paths,
                     &[],
                     "out",
                     &RunEnv { sched_seed: Some(*sched_seed), hash_seed: Some(*hash_seed), threads: Some(*threads), real_rayon: *real_rayon, ..Default::default() },
